@@ -1,6 +1,6 @@
 // Linearizability oracle shared by the C18 obligations. c18_lin_aof.go is this file with the package clause changed
 // (sed 's/^package memory$/package aof/'); keep them identical otherwise.
-package memory
+package aof
 
 import (
 	"context"
